@@ -25,7 +25,7 @@ SHIMS = True
 TECHNIQUE = (
     "fault enumeration at the file-system boundary: oscore.py's os/tempfile/io/open calls are interposed, a recorded "
     "history is re-run with a crash after every individual effect and at every operation boundary (in-process unwinding; "
-    "a real child process dying by os._exit on a subset and compared), followed by reload/continue/second stop/reload; "
+    "a real child process dying by os._exit on a subset and compared), and with individual file-system operations (single ones and stretches) failing with OSError while the process lives on, followed by reload/continue/second stop/reload; "
     "oracles over partial IVs parsed independently from the serialised messages and over sequence.json read independently"
 )
 LEVEL_TEXT = (
@@ -33,7 +33,8 @@ LEVEL_TEXT = (
     "inside _destroy) of each listed history was injected and followed by two further lifetimes; histories cross the "
     "persistence chunk boundaries 10/30/70/150 (thorough: 310/630 and one run through the 10000 limit), small chunk "
     "parameters, persisted / unknown / absent / exhausted start states, plus random multi-lifetime chains. Power loss "
-    "(unsynced data lost) is not modelled."
+    "(unsynced data lost) is not modelled. Fault points: every file-system operation of each history made to fail (alone and as the first of three) with the process "
+    "running on to the end of the history and then dying or stopping cleanly; random chains mix failing stretches with crash points."
 )
 LEVEL_NOTE = (
     "Trusted: harness/oscore_c13.py (interposition, option parser), harness/refcodec.py, the cbor2/filelock stand-ins. "
@@ -47,6 +48,7 @@ RULE = (
 ASSUMPTIONS = [
     "a dying process loses user-space buffers and keeps everything already handed to the kernel; its flock is released, the lock file stays",
     "clean stop = FilesystemSecurityContext._destroy(), directly or through __del__ when the last reference goes away",
+    "a failing file-system operation raises OSError before anything changes on disk (ENOSPC / EMFILE / EROFS kind of failure); a clean stop that runs into one counts as an unclean stop",
     "the peer never reuses its own sequence numbers and sends the Echo-bearing request with a number above all earlier ones",
     "ContextUnavailable (the documented exception) or any other exception without a returned message counts as refusal; a returned message with partial IV >= 2^40-1 does not",
 ]
@@ -63,6 +65,8 @@ REQUIRED_MONITORS = {
     "reload": 600,
     "mode_b_compared": 16,
     "chunk_boundaries": 50,
+    "fault_points": 300,
+    "fs_faults_injected": 300,
 }
 EXHAUSTIVE = {
     "crash_points": "for every listed first-lifetime history: a crash after each individual file-system effect (incl. those of _destroy), at every operation boundary, and the two clean stops",
@@ -137,12 +141,29 @@ def unpack(packed):
 
 
 # ------------------------------------------------------------------------------ oracle
+class _FaultTagging:
+    """Reporter front: violations seen once a file-system operation was made to fail (instead of the process dying)
+    are keyed apart from those that need nothing but crashes."""
+
+    def __init__(self, rep, orc):
+        self._rep = rep
+        self._orc = orc
+
+    def __getattr__(self, name):
+        return getattr(self._rep, name)
+
+    def violation(self, key, *a, **kw):
+        if self._orc.faulted or self._orc.h.GATE.failed:
+            key += "/after-failed-store"
+        return self._rep.violation(key, *a, **kw)
+
+
 class Oracle:
     """All oracles for one context directory across its lifetimes."""
 
     def __init__(self, h, rep, path, case):
         self.h = h
-        self.rep = rep
+        self.rep = _FaultTagging(rep, self)
         self.path = path
         self.case = case
         self.pivs = {}
@@ -159,6 +180,7 @@ class Oracle:
         self.boundaries = 0
         self.last_disk = None
         self.accepted_lifetime1 = []
+        self.faulted = False  # some file-system operation of an earlier or this lifetime was made to fail
 
     # -- lifetime bookkeeping ----------------------------------------------------
     def begin(self):
@@ -275,6 +297,16 @@ class Runner:
         import filelock
 
         self.LockTimeout = filelock.Timeout
+        prev_hook = sys.unraisablehook
+
+        def unraisable(u):
+            # __del__ (the clean stop of a context whose last reference went away) running into an injected fault
+            if isinstance(u.exc_value, OSError) and "(injected)" in str(u.exc_value):
+                rep.count("injected_fault_in_del")
+            else:
+                prev_hook(u)
+
+        sys.unraisablehook = unraisable
 
     def new_dir(self, spec):
         self.ndirs += 1
@@ -282,14 +314,14 @@ class Runner:
         return self.h.make_dir(d, spec.get("window"), spec.get("start"))
 
     # -- one lifetime ------------------------------------------------------------
-    def lifetime(self, orc, spec, ops, st, stop, info=None):
+    def lifetime(self, orc, spec, ops, st, stop, info=None, faults=()):
         """Run one lifetime ending with `stop`. Returns the way it ended: 'crash' | 'clean' |
         None if the context could not be loaded."""
         h = self.h
         rep = self.rep
         g = self.gate
         chunk = tuple(spec["chunk"]) if spec.get("chunk") else None
-        g.reset(crash_after=stop[1] if stop[0] == "eff" else None)
+        g.reset(crash_after=stop[1] if stop[0] == "eff" else None, fail_at=faults)
         g.observer = orc.observer
         orc.begin()
         try:
@@ -346,12 +378,23 @@ class Runner:
         except h.Crash:
             ended = "crash"
             rep.seen("crashed_after_effect", "%s" % (g.trace[-1][0] if g.trace else "?",))
+        except OSError:
+            # a clean stop (final or as an operation of the history) ran into an injected fault: the process ends
+            # without having shut the context down
+            if not g.failed:
+                raise
+            rep.count("clean_stop_failed_on_injected_fault")
+            ended = "crash"
         finally:
             if ended != "clean":
                 if not life.abandon():
                     rep.inconc("could not neutralise the abandoned context object (no `lockfile` attribute)")
             g.dead = False
             g.crash_after = None
+            if g.failed:
+                rep.monitor("fs_faults_injected", g.failed)
+                orc.faulted = True
+            g.fail_at = set()
         if g.bypassed:
             rep.inconc("oscore.py modified the file system through calls that are not interposed: %s" % sorted(g.bypassed)[:4])
             del g.bypassed[:]
@@ -393,7 +436,7 @@ class Runner:
             except Exception as e:  # noqa: BLE001
                 rep.seen("old_request_other_exception", type(e).__name__)
                 continue
-            rep.violation(
+            orc.rep.violation(
                 "replay-after-%s/accepted-%s" % (orc.prev_stop, phase),
                 "a request accepted in an earlier lifetime was accepted again after reload (%s stop, %s)" % (orc.prev_stop, phase),
                 orc.witness(request_number=n, had_echo=echo is not None, accepted_earlier=[a for a, _ in old][-12:]),
@@ -408,7 +451,7 @@ class Runner:
         orc = Oracle(self.h, self.rep, d, case)
         st = {"peer_next": spec.get("peer", 0)}
         try:
-            e1 = self.lifetime(orc, spec, ops1, st, case["cp"], info)
+            e1 = self.lifetime(orc, spec, ops1, st, case["cp"], info, faults=case.get("faults", ()))
             if info is not None:
                 info["records"] = list(orc.records)
                 info["snapshot"] = self.h.snapshot(d)
@@ -436,8 +479,8 @@ class Runner:
         orc = Oracle(self.h, self.rep, d, case)
         st = {"peer_next": spec.get("peer", 0)}
         try:
-            for packed, stop in case["lives"]:
-                if self.lifetime(orc, spec, unpack(packed), st, stop) is None:
+            for packed, stop, *faults in case["lives"]:
+                if self.lifetime(orc, spec, unpack(packed), st, stop, faults=faults[0] if faults else ()) is None:
                     return
             self.lifetime(orc, spec, P(2), st, ["clean"])
         finally:
@@ -583,7 +626,14 @@ def gen_chain(r, i):
             stop = ["clean"]
         else:
             stop = ["del"]
-        lives.append([pack(ops), stop])
+        faults = []
+        if r.random() < 0.35:
+            # file-system operations that fail while the process lives on: single ones and stretches
+            k0 = r.randrange(1, 14)
+            faults = list(range(k0, k0 + r.choice([1, 1, 2, 3, 5, 40])))
+            if r.random() < 0.3:
+                faults.append(r.randrange(1, 30))
+        lives.append([pack(ops), stop, faults])
     return {"cls": "chain", "spec": spec, "lives": lives, "i": i}
 
 
@@ -658,11 +708,22 @@ def run_shard(shard, rep, only=None):
                         runner.run_case(case)
                     rep.monitor("crash_points")
                     rep.case(cp_sig(spec, cp, info, cp2), nontrivial=True)
+            # the same history with single file-system operations (and short stretches of them) failing instead of
+            # the process dying; it runs to its end and the process then dies, or stops cleanly
+            for k in range(1, info["effects_in_ops"] + 1):
+                for width in (1, 3):
+                    for cp in (["op", info["ops_done"]], ["clean"]):
+                        counter += 1
+                        if counter % of != idx:
+                            continue
+                        runner.run_case({"cls": "enum", "spec": spec, "cp": cp, "cp2": ["clean"], "faults": list(range(k, k + width))})
+                        rep.monitor("fault_points")
+                        rep.case([spec["name"], "fault", info["trace"][k - 1][0], min(k, 40), width, cp[0]], nontrivial=True)
         r = random.Random(shard["seed"])
         for i in range({"quick": 60, "thorough": 9000}[tier]):
             case = gen_chain(r, i)
             runner.run_chain(case)
-            rep.case(["chain", [[s[0], len(p)] for p, s in case["lives"]], case["spec"]["chunk"], bool(case["spec"]["start"])], nontrivial=True)
+            rep.case(["chain", [[s[0], len(p), min(len(f), 4)] for p, s, f in case["lives"]], case["spec"]["chunk"], bool(case["spec"]["start"])], nontrivial=True)
         if tier == "thorough" and idx < 4:
             long_run(runner, rep, [25000, 45000, 12000, 21000][idx])
         elif tier == "quick" and idx == 0:
